@@ -33,367 +33,8 @@ HERE = pathlib.Path(__file__).resolve().parent.parent
 REPO = pathlib.Path("/repo")
 
 
-def each_file(root):
-    for p in sorted((root / "amaranth_soc").rglob("*.py")):
-        yield p
-
-
-def rewrite(root, fn):
-    for p in each_file(root):
-        tree = ast.parse(p.read_text())
-        tree = fn(tree) or tree
-        ast.fix_missing_locations(tree)
-        p.write_text(ast.unparse(tree) + "\n")
-
-
-# ---- transformations ---------------------------------------------------------------------------------------------------------------
-def t_unparse(tree):
-    return tree
-
-
-def t_locals(tree):
-    class Ren(ast.NodeTransformer):
-        def __init__(self, names):
-            self.names = names
-
-        def visit_Name(self, n):
-            if n.id in self.names:
-                n.id += "_lv"
-            return n
-
-        def visit_ExceptHandler(self, n):
-            if n.name in self.names:
-                n.name += "_lv"
-            self.generic_visit(n)
-            return n
-
-    def process(fn):
-        params, declared, nested, stores = set(), set(), set(), set()
-        for sub in ast.walk(fn):
-            if isinstance(sub, (ast.FunctionDef, ast.Lambda, ast.AsyncFunctionDef)):
-                a = sub.args
-                for x in a.posonlyargs + a.args + a.kwonlyargs:
-                    params.add(x.arg)
-                if a.vararg:
-                    params.add(a.vararg.arg)
-                if a.kwarg:
-                    params.add(a.kwarg.arg)
-            if isinstance(sub, (ast.Global, ast.Nonlocal)):
-                declared |= set(sub.names)
-            if isinstance(sub, (ast.FunctionDef, ast.ClassDef)) and sub is not fn:
-                nested.add(sub.name)
-            if isinstance(sub, ast.Name) and isinstance(sub.ctx, (ast.Store, ast.Del)):
-                stores.add(sub.id)
-            if isinstance(sub, ast.ExceptHandler) and sub.name:
-                stores.add(sub.name)
-        names = stores - params - declared - nested - {"_", "__class__"}
-        for st in fn.body:
-            Ren(names).visit(st)
-    for node in ast.walk(tree):
-        if isinstance(node, (ast.ClassDef, ast.Module)):
-            for st in node.body:
-                if isinstance(st, ast.FunctionDef):
-                    process(st)
-    return tree
-
-
-def t_order(tree):
-    class T(ast.NodeTransformer):
-        def visit_ClassDef(self, node):
-            self.generic_visit(node)
-            idxs = [i for i, s in enumerate(node.body) if isinstance(s, ast.FunctionDef)]
-            fns = sorted((node.body[i] for i in idxs), key=lambda f: f.name)      # stable: a property stays before its setter
-            for i, f in zip(idxs, fns):
-                node.body[i] = f
-            return node
-
-        def visit_If(self, node):
-            self.generic_visit(node)
-            if node.orelse and not (len(node.orelse) == 1 and isinstance(node.orelse[0], ast.If)):
-                t = node.test
-                node.test = t.operand if isinstance(t, ast.UnaryOp) and isinstance(t.op, ast.Not) else ast.UnaryOp(op=ast.Not(), operand=t)
-                node.body, node.orelse = node.orelse, node.body
-            return node
-
-    def split_lists(stmts):
-        out = []
-        for s in stmts:
-            for fld in ("body", "orelse", "finalbody"):
-                b = getattr(s, fld, None)
-                if isinstance(b, list) and b and isinstance(b[0], ast.stmt):
-                    setattr(s, fld, split_lists(b))
-            if isinstance(s, ast.Try):
-                for h in s.handlers:
-                    h.body = split_lists(h.body)
-            if isinstance(s, ast.AugAssign) and isinstance(s.op, ast.Add) and isinstance(s.value, ast.List) and isinstance(s.target, ast.Attribute) \
-                    and isinstance(s.target.value, ast.Attribute) and s.target.value.attr == "d" and \
-                    not any(isinstance(e, ast.Starred) for e in s.value.elts):
-                for e in s.value.elts:
-                    out.append(ast.copy_location(ast.AugAssign(target=s.target, op=ast.Add(), value=e), s))
-            else:
-                out.append(s)
-        return out
-    tree = T().visit(tree)
-    for node in ast.walk(tree):
-        if isinstance(node, ast.FunctionDef):
-            node.body = split_lists(node.body)
-    return tree
-
-
-def t_demorgan(tree):
-    def neg(x):
-        return x.operand if isinstance(x, ast.UnaryOp) and isinstance(x.op, ast.Not) else ast.UnaryOp(op=ast.Not(), operand=x)
-
-    class T(ast.NodeTransformer):
-        def visit_If(self, node):
-            self.generic_visit(node)
-            t = node.test
-            if isinstance(t, ast.BoolOp):
-                other = ast.And() if isinstance(t.op, ast.Or) else ast.Or()
-                node.test = ast.UnaryOp(op=ast.Not(), operand=ast.BoolOp(op=other, values=[neg(v) for v in t.values]))
-            return node
-
-        def visit_For(self, node):
-            self.generic_visit(node)
-            if isinstance(node.target, ast.Tuple):
-                tgt = node.target
-                node.target = ast.Name(id="_item", ctx=ast.Store())
-                node.body.insert(0, ast.Assign(targets=[tgt], value=ast.Name(id="_item", ctx=ast.Load())))
-            return node
-    return T().visit(tree)
-
-
-def t_hoist(tree):
-    for cls in [c for c in ast.walk(tree) if isinstance(c, ast.ClassDef)]:
-        for fn in [f for f in cls.body if isinstance(f, ast.FunctionDef)]:
-            if fn.name in ("__init__", "__new__") or fn.decorator_list:
-                continue
-            if not fn.args.args or fn.args.args[0].arg != "self":
-                continue
-            if any(isinstance(x, (ast.Yield, ast.YieldFrom, ast.Lambda)) or (isinstance(x, ast.FunctionDef) and x is not fn) for x in ast.walk(fn)):
-                continue
-            loads, stored = collections.Counter(), set()
-            for x in ast.walk(fn):
-                if isinstance(x, ast.Attribute) and isinstance(x.value, ast.Name) and x.value.id == "self":
-                    if isinstance(x.ctx, ast.Load):
-                        loads[x.attr] += 1
-                    else:
-                        stored.add(x.attr)
-            called = {x.func.attr for x in ast.walk(fn) if isinstance(x, ast.Call) and isinstance(x.func, ast.Attribute) and
-                      isinstance(x.func.value, ast.Name) and x.func.value.id == "self"}
-            names = {x.id for x in ast.walk(fn) if isinstance(x, ast.Name)} | {a.arg for a in fn.args.args + fn.args.kwonlyargs}
-            ren = {a: a.lstrip("_") + "_h" for a, c in loads.items()
-                   if c >= 2 and a not in stored and a not in called and (a.lstrip("_") + "_h") not in names}
-            if not ren:
-                continue
-
-            class R(ast.NodeTransformer):
-                def visit_Attribute(self, x):
-                    self.generic_visit(x)
-                    if isinstance(x.value, ast.Name) and x.value.id == "self" and x.attr in ren and isinstance(x.ctx, ast.Load):
-                        return ast.copy_location(ast.Name(id=ren[x.attr], ctx=ast.Load()), x)
-                    return x
-            body = fn.body
-            k = 1 if (body and isinstance(body[0], ast.Expr) and isinstance(body[0].value, ast.Constant)) else 0
-            newbody = [R().visit(s) for s in body[k:]]
-            pre = [ast.Assign(targets=[ast.Name(id=v, ctx=ast.Store())],
-                              value=ast.Attribute(value=ast.Name(id="self", ctx=ast.Load()), attr=a, ctx=ast.Load())) for a, v in ren.items()]
-            fn.body = body[:k] + pre + newbody
-    return tree
-
-
-def t_reflect(tree):
-    refl = {ast.Lt: ast.Gt, ast.Gt: ast.Lt, ast.LtE: ast.GtE, ast.GtE: ast.LtE}
-
-    class T(ast.NodeTransformer):
-        def visit_IfExp(self, n):
-            self.generic_visit(n)
-            t = n.test
-            n.test = t.operand if isinstance(t, ast.UnaryOp) and isinstance(t.op, ast.Not) else ast.UnaryOp(op=ast.Not(), operand=t)
-            n.body, n.orelse = n.orelse, n.body
-            return n
-
-        def visit_Compare(self, n):
-            self.generic_visit(n)
-            if len(n.ops) == 1 and type(n.ops[0]) in refl:
-                n.left, n.comparators = n.comparators[0], [n.left]
-                n.ops = [refl[type(n.ops[0])]()]
-            return n
-
-        def visit_BinOp(self, n):
-            self.generic_visit(n)
-            if isinstance(n.op, (ast.BitAnd, ast.BitOr)):
-                n.left, n.right = n.right, n.left
-            return n
-
-    def extract_msgs(fn):
-        k = [0]
-
-        def walk(stmts):
-            i = 0
-            while i < len(stmts):
-                s = stmts[i]
-                for fld in ("body", "orelse", "finalbody"):
-                    b = getattr(s, fld, None)
-                    if isinstance(b, list) and b and isinstance(b[0], ast.stmt):
-                        walk(b)
-                if isinstance(s, ast.Raise) and isinstance(s.exc, ast.Call) and len(s.exc.args) == 1 and isinstance(s.exc.args[0], (ast.JoinedStr, ast.BinOp)):
-                    k[0] += 1
-                    nm = f"message_{k[0]}"
-                    stmts.insert(i, ast.Assign(targets=[ast.Name(id=nm, ctx=ast.Store())], value=s.exc.args[0]))
-                    s.exc.args = [ast.Name(id=nm, ctx=ast.Load())]
-                    i += 1
-                i += 1
-        walk(fn.body)
-    tree = T().visit(tree)
-    for fn in [f for f in ast.walk(tree) if isinstance(f, ast.FunctionDef)]:
-        extract_msgs(fn)
-    return tree
-
-
-def t_dslnest(tree):
-    """`with m.If(a & b): BODY` (no Elif / Else following) -> `with m.If(a): with m.If(b): BODY`; function parameters get annotations;
-    docstrings are dropped."""
-    def is_ctx(st, names):
-        return isinstance(st, ast.With) and len(st.items) == 1 and isinstance(st.items[0].context_expr, ast.Call) and \
-            isinstance(st.items[0].context_expr.func, ast.Attribute) and st.items[0].context_expr.func.attr in names
-
-    def nest(stmts):
-        for i, st in enumerate(stmts):
-            for fld in ("body", "orelse", "finalbody"):
-                b = getattr(st, fld, None)
-                if isinstance(b, list) and b and isinstance(b[0], ast.stmt):
-                    nest(b)
-            if is_ctx(st, ("If",)) and not (i + 1 < len(stmts) and is_ctx(stmts[i + 1], ("Elif", "Else"))):
-                call = st.items[0].context_expr
-                if len(call.args) == 1 and isinstance(call.args[0], ast.BinOp) and isinstance(call.args[0].op, ast.BitAnd):
-                    a, b = call.args[0].left, call.args[0].right
-                    inner = ast.With(items=[ast.withitem(context_expr=ast.Call(func=call.func, args=[b], keywords=[]))], body=st.body)
-                    call.args = [a]
-                    st.body = [inner]
-    for fn in [f for f in ast.walk(tree) if isinstance(f, ast.FunctionDef)]:
-        nest(fn.body)
-        for a in fn.args.args + fn.args.kwonlyargs:
-            if a.arg not in ("self", "cls") and a.annotation is None:
-                a.annotation = ast.Constant(value="object")
-        if fn.returns is None and fn.name != "__init__":
-            fn.returns = ast.Constant(value="object")
-    for node in ast.walk(tree):
-        if isinstance(node, (ast.FunctionDef, ast.ClassDef, ast.Module)) and node.body and isinstance(node.body[0], ast.Expr) and \
-                isinstance(node.body[0].value, ast.Constant) and isinstance(node.body[0].value.value, str) and len(node.body) > 1:
-            del node.body[0]
-    return tree
-
-
-def t_temps(tree):
-    """Temporaries: `m.d.x += T.eq(<operation>)` -> `value_k = <operation>; m.d.x += T.eq(value_k)`; `if <test>: raise ...` ->
-    `refuse_k = <test>; if refuse_k: raise ...` (single-statement bodies that raise)."""
-    def walk(stmts, k):
-        i = 0
-        while i < len(stmts):
-            st = stmts[i]
-            for fld in ("body", "orelse", "finalbody"):
-                b = getattr(st, fld, None)
-                if isinstance(b, list) and b and isinstance(b[0], ast.stmt):
-                    walk(b, k)
-            if isinstance(st, ast.AugAssign) and isinstance(st.op, ast.Add) and isinstance(st.value, ast.Call) and \
-                    isinstance(st.value.func, ast.Attribute) and st.value.func.attr == "eq" and len(st.value.args) == 1 and \
-                    isinstance(st.value.args[0], (ast.BinOp, ast.UnaryOp, ast.Call)) and isinstance(st.target, ast.Attribute) and \
-                    isinstance(st.target.value, ast.Attribute) and st.target.value.attr == "d":
-                k[0] += 1
-                nm = f"value_{k[0]}"
-                stmts.insert(i, ast.Assign(targets=[ast.Name(id=nm, ctx=ast.Store())], value=st.value.args[0]))
-                st.value.args = [ast.Name(id=nm, ctx=ast.Load())]
-                i += 1
-            elif isinstance(st, ast.If) and not st.orelse and len(st.body) == 1 and isinstance(st.body[0], ast.Raise) and \
-                    not isinstance(st.test, ast.Name):
-                k[0] += 1
-                nm = f"refuse_{k[0]}"
-                stmts.insert(i, ast.Assign(targets=[ast.Name(id=nm, ctx=ast.Store())], value=st.test))
-                st.test = ast.Name(id=nm, ctx=ast.Load())
-                i += 1
-            i += 1
-    for fn in [f for f in ast.walk(tree) if isinstance(f, ast.FunctionDef)]:
-        walk(fn.body, [0])
-    return tree
-
-
-def t_augassign(tree):
-    """`acc |= x` -> `acc = acc | x` (names only; not list displays); `for i, x in enumerate(S)` over a plain name or attribute ->
-    `for i in range(len(S)): x = S[i]`."""
-    class T(ast.NodeTransformer):
-        def visit_AugAssign(self, n):
-            self.generic_visit(n)
-            if isinstance(n.target, ast.Name) and isinstance(n.op, (ast.BitOr, ast.BitAnd, ast.Add, ast.Sub, ast.Mult)) and \
-                    not isinstance(n.value, (ast.List, ast.ListComp)):
-                return ast.copy_location(ast.Assign(targets=[ast.Name(id=n.target.id, ctx=ast.Store())],
-                                                    value=ast.BinOp(left=ast.Name(id=n.target.id, ctx=ast.Load()), op=n.op, right=n.value)), n)
-            return n
-
-        def visit_For(self, n):
-            self.generic_visit(n)
-            it = n.iter
-            if isinstance(it, ast.Call) and isinstance(it.func, ast.Name) and it.func.id == "enumerate" and len(it.args) == 1 and \
-                    not it.keywords and isinstance(it.args[0], ast.Name) and isinstance(n.target, ast.Tuple) and \
-                    len(n.target.elts) == 2 and isinstance(n.target.elts[0], ast.Name):
-                seq, i, x = it.args[0], n.target.elts[0], n.target.elts[1]
-                n.iter = ast.Call(func=ast.Name(id="range", ctx=ast.Load()),
-                                  args=[ast.Call(func=ast.Name(id="len", ctx=ast.Load()), args=[seq], keywords=[])], keywords=[])
-                n.target = ast.Name(id=i.id, ctx=ast.Store())
-                n.body.insert(0, ast.Assign(targets=[x], value=ast.Subscript(value=seq, slice=ast.Name(id=i.id, ctx=ast.Load()), ctx=ast.Load())))
-            return n
-    return T().visit(tree)
-
-
-def t_hworder(tree):
-    """Hardware statements in another order: runs of `m.d.<domain> += T.eq(V)` with pairwise different targets are reversed; sibling
-    `with m.Case(<constant pattern>):` arms of one Switch are reversed (Default stays last)."""
-    def key(st):
-        if isinstance(st, ast.AugAssign) and isinstance(st.op, ast.Add) and isinstance(st.target, ast.Attribute) and \
-                isinstance(st.target.value, ast.Attribute) and st.target.value.attr == "d" and isinstance(st.value, ast.Call) and \
-                isinstance(st.value.func, ast.Attribute) and st.value.func.attr == "eq":
-            return ast.unparse(st.value.func.value)
-        return None
-
-    def is_case(st):
-        return isinstance(st, ast.With) and len(st.items) == 1 and isinstance(st.items[0].context_expr, ast.Call) and \
-            isinstance(st.items[0].context_expr.func, ast.Attribute) and st.items[0].context_expr.func.attr == "Case" and \
-            st.items[0].context_expr.args and all(isinstance(a, (ast.Constant, ast.Attribute)) for a in st.items[0].context_expr.args)
-
-    def walk(stmts):
-        for st in stmts:
-            for fld in ("body", "orelse", "finalbody"):
-                b = getattr(st, fld, None)
-                if isinstance(b, list) and b and isinstance(b[0], ast.stmt):
-                    walk(b)
-        i = 0
-        while i < len(stmts):
-            j = i
-            while j < len(stmts) and key(stmts[j]) is not None:
-                j += 1
-            run = stmts[i:j]
-            if len(run) >= 2 and len({key(s_) for s_ in run}) == len(run):
-                stmts[i:j] = list(reversed(run))
-            i = max(j, i + 1)
-        i = 0
-        while i < len(stmts):
-            j = i
-            while j < len(stmts) and is_case(stmts[j]):
-                j += 1
-            run = stmts[i:j]
-            pats = [ast.unparse(a) for s_ in run for a in s_.items[0].context_expr.args]
-            if len(run) >= 2 and len(set(pats)) == len(pats):
-                stmts[i:j] = list(reversed(run))
-            i = max(j, i + 1)
-    for fn in [f for f in ast.walk(tree) if isinstance(f, ast.FunctionDef)]:
-        walk(fn.body)
-    return tree
-
-
-VARIANTS = collections.OrderedDict(unparse=[t_unparse], locals=[t_locals], order=[t_order], demorgan=[t_demorgan], hoist=[t_hoist],
-                                   reflect=[t_reflect], dslnest=[t_dslnest], temps=[t_temps], augassign=[t_augassign], hworder=[t_hworder])
-VARIANTS["hworder2"] = [t_order, t_hworder, t_augassign, t_temps]
-VARIANTS["all"] = [t_locals, t_order, t_demorgan, t_hoist, t_reflect, t_dslnest]
+sys.path.insert(0, str(HERE))
+from sa.variants import VARIANTS, rewrite          # noqa: E402
 
 
 def main():
